@@ -17,7 +17,7 @@ treehash() {
       ! -name 'config.h' ! -name 'Makefile.in' ! -name 'config.h.in' -print0 | LC_ALL=C sort -z | xargs -0 sha256sum ) | sha256sum | cut -c1-24
 }
 H=$(treehash)
-OUT=$CACHE/$H/$VARIANT
+OUT=$CACHE/$H/$VARIANT-r1
 if [ -f "$OUT/.ok" ]; then echo "$OUT"; exit 0; fi
 mkdir -p "$CACHE/$H"
 exec 9>"$CACHE/$H/.lock.$VARIANT"
@@ -25,8 +25,8 @@ flock 9
 if [ -f "$OUT/.ok" ]; then echo "$OUT"; exit 0; fi
 
 case $VARIANT in
-  asan-ts)   CF="-g -O1 -fno-omit-frame-pointer -fsanitize=address,undefined -fno-sanitize-recover=undefined"; OPTS="";;
-  asan-nots) CF="-g -O1 -fno-omit-frame-pointer -fsanitize=address,undefined -fno-sanitize-recover=undefined"; OPTS="--disable-thread-safety";;
+  asan-ts)   CF="-g -O1 -fno-omit-frame-pointer -fsanitize=address,undefined -fsanitize-recover=address,undefined"; OPTS="";;
+  asan-nots) CF="-g -O1 -fno-omit-frame-pointer -fsanitize=address,undefined -fsanitize-recover=address,undefined"; OPTS="--disable-thread-safety";;
   tsan-ts)   CF="-g -O1 -fno-omit-frame-pointer -fsanitize=thread"; OPTS="";;
   plain-ts)  CF="-g -O2"; OPTS="";;
   *) echo "unknown variant $VARIANT" >&2; exit 2;;
